@@ -72,6 +72,21 @@ func (ex *Exec) indexCalls() {
 		}
 	}
 	ex.callIdxOf = map[ssa.Instruction]int{}
+	ex.mapStoreOrd = map[*ssa.MapUpdate]int{}
+	{
+		var ms []*ssa.MapUpdate
+		for _, b := range ex.fn.Blocks {
+			for _, in := range b.Instrs {
+				if mu, ok := in.(*ssa.MapUpdate); ok {
+					ms = append(ms, mu)
+				}
+			}
+		}
+		sort.SliceStable(ms, func(a, b int) bool { return ms[a].Pos() < ms[b].Pos() })
+		for k, mu := range ms {
+			ex.mapStoreOrd[mu] = k
+		}
+	}
 	for _, es := range by {
 		sort.SliceStable(es, func(a, b int) bool {
 			if es[a].pos != es[b].pos {
@@ -472,6 +487,9 @@ func (ex *Exec) applyContract(v ssa.Value, fc *FuncContract, cname string, names
 	for _, c := range fc.clauses("preserves") {
 		arr, refs, err := vc.preservesLoc(envPre, c.Expr)
 		if err != nil {
+			if strings.Contains(err.Error(), "is not used by this function") {
+				continue
+			}
 			vc.ctx.contractError(fc, c, err)
 			continue
 		}
@@ -803,6 +821,13 @@ func (ex *Exec) isTypeInvOwner(of string) bool {
 // preservesLoc parses "Type.field [except e1, e2]".
 func (vc *VC) preservesLoc(env *SpecEnv, expr string) (arr string, refs []string, err error) {
 	parts := strings.SplitN(expr, " except ", 2)
+	if raw := strings.TrimSpace(parts[0]); strings.HasPrefix(raw, "Elems.") || strings.HasPrefix(raw, "Cell.") {
+		// a whole array by its name in the heap model, e.g. Elems.Str (string slices)
+		if _, ok := vc.arrSort[raw]; !ok {
+			return "", nil, fmt.Errorf("preserves: heap array %s is not used by this function", raw)
+		}
+		return raw, nil, nil
+	}
 	tf := strings.SplitN(strings.TrimSpace(parts[0]), ".", 2)
 	if len(tf) != 2 {
 		return "", nil, fmt.Errorf("preserves Type.field [except ...]")
